@@ -52,8 +52,9 @@ NSteps(r) == CASE r.t \in {"insert", "binsert"} -> Len(r.items)
 P0 == [i |-> 1, ap |-> 0, ref |-> FALSE]
 Finished(r, p) == p.i > NSteps(r)
 
-\* successors of (L, p) when RPC r executes its next step: a set of [live, p]
-StepOf(L, r, p) ==
+\* successors of (L, p) when RPC r executes its next step: a set of [live, p].  slack = documents a concurrent delete of
+\* the other request may already have removed without having given back their slots yet (transient count)
+StepOf(L, r, p, slack) ==
   LET nx == [p EXCEPT !.i = p.i + 1] IN
   CASE r.t \in {"insert", "binsert"} ->
          LET it == r.items[p.i] IN
@@ -63,7 +64,7 @@ StepOf(L, r, p) ==
          ELSE { [live |-> L, p |-> [nx EXCEPT !.ref = TRUE]] }
     [] r.t = "bload" ->
          IF p.i = 1
-         THEN LET fitsAll == Card(L \cup ItemIds(r, {"ok", "fail"})) <= limit
+         THEN LET fitsAll == Card(L \cup slack) + Card(ItemIds(r, {"ok", "fail"}) \ L) <= limit
                   fitsOk  == Card(L \cup ItemIds(r, {"ok"})) <= limit
                   go  == [live |-> L, p |-> nx]
                   ref == [live |-> L, p |-> [i |-> NSteps(r) + 1, ap |-> 0, ref |-> TRUE]]
@@ -74,11 +75,13 @@ StepOf(L, r, p) ==
     [] OTHER -> { [live |-> L \ {r.ids[p.i]}, p |-> nx] }
 
 \* all final [live, a, b] of interleaving the steps of ra and rb (rb may have no steps)
-RECURSIVE Reach(_, _, _, _, _)
-Reach(L, ra, pa, rb, pb) ==
+RECURSIVE Reach(_, _, _, _, _, _, _)
+Reach(L, ra, pa, rb, pb, sa, sb) ==
   IF Finished(ra, pa) /\ Finished(rb, pb) THEN { [live |-> L, a |-> pa, b |-> pb] }
-  ELSE (IF Finished(ra, pa) THEN {} ELSE UNION { Reach(s.live, ra, s.p, rb, pb) : s \in StepOf(L, ra, pa) })
-       \cup (IF Finished(rb, pb) THEN {} ELSE UNION { Reach(s.live, ra, pa, rb, s.p) : s \in StepOf(L, rb, pb) })
+  ELSE (IF Finished(ra, pa) THEN {} ELSE UNION { Reach(s.live, ra, s.p, rb, pb, sa, sb) : s \in StepOf(L, ra, pa, sa) })
+       \cup (IF Finished(rb, pb) THEN {} ELSE UNION { Reach(s.live, ra, pa, rb, s.p, sa, sb) : s \in StepOf(L, rb, pb, sb) })
+\* what a request may delete of the documents live before the group
+Dels(r) == IF r.t \in {"delete", "bdelete"} THEN Range(r.ids) \cap live ELSE {}
 
 \* the answer of r is the one this execution of r gives
 Consistent(r, p) ==
@@ -101,16 +104,17 @@ Measure(e, n) ==
   \cup (IF e.usage = -1 \/ e.usage = n THEN {} ELSE {"usage report differs from the live count"})
 
 \* one request: its answer and the census must be what the request does on `live`;
-\* two concurrent requests: the census must be the outcome of some interleaving of their items (their answers may
-\* reflect a transient count - e.g. an item refused while the other request's delete has removed a document but not yet
-\* given back its slot - and are only noted, not judged)
+\* two concurrent requests: the census must be the outcome of some interleaving of their items.  Their answers may
+\* reflect a transient count - an item, or a whole bulk load, refused while the other request's delete has removed a
+\* document but not yet given back its slot: such answers are only noted, not judged
 JudgeGrp(e) ==
   LET ra == e.rpcs[1]
       rb == IF Len(e.rpcs) > 1 THEN e.rpcs[2] ELSE NoRpc
       cen == Range(e.cen)
-      all == Reach(live, ra, P0, rb, P0)
-      fit == { o \in all : Consistent(ra, o.a) /\ Consistent(rb, o.b) }
       pair == Len(e.rpcs) > 1
+      strict == Reach(live, ra, P0, rb, P0, {}, {})
+      all == IF pair THEN Reach(live, ra, P0, rb, P0, Dels(rb), Dels(ra)) ELSE strict
+      fit == { o \in strict : Consistent(ra, o.a) /\ Consistent(rb, o.b) }
       single == ~pair /\ ra.t = "insert" /\ ra.items[1].q = "ok"
       explain ==
         IF \E o \in fit : o.live = cen THEN {}
